@@ -119,7 +119,7 @@ func main() {
 		}
 		for _, dir := range dirs {
 			for _, f := range goFiles(dir) {
-				add(f, "sync", mod+"/pkg/vsyncq")
+				add(f, "sync", mod+"/pkg/vsync")
 			}
 		}
 	}
